@@ -220,3 +220,13 @@ End ObChecks.
 Definition ob_case_code (c : ob_case) : nat :=
   bit 1 (ochk1 c) + bit 2 (ochk2 c) + bit 3 (ochk3 c) + bit 4 (ochk4 c) + bit 5 (ochk5 c) + bit 6 (ochk6 c)
   + bit 7 (ochk7 c).
+
+(* ------------------------------------------------------------------------
+   Raw scanner cases: _TreeDist.get_bipartition on arbitrary texts (quotes,
+   blanks, underscores, stray parentheses and colons) against the model;
+   correspondence only. *)
+Record sc_case := {
+  sc_text : str;
+  sc_out : option (list (list str) * list str)      (* impl: (keys of the dict, lang_set); None = raised *)
+}.
+Definition sc_case_code (c : sc_case) : nat := bit 0 (bip_eqb (get_bipartition (sc_text c)) (sc_out c)).
